@@ -20,6 +20,7 @@ EXPLANATION = (
     "C01.9 the wait helper forwards word and expected value and returns after a wake, C01.10 wait and wake use the same futex flavour (private/shared), "
     "C01.11 try_lock reaches no blocking call, has no loop and uses the strong CAS. "
     "C01.12 type-level witnesses (compile_fail doctests, each with a compiling twin): a MutexGuard is not Send, the protected value is private, the guard borrows the mutex; "
+    "A wait that is repeated re-reads the word first and a changed word ends the helper (C01.9, shared with C02.8). "
     "NOT decided: absence of lost wake-ups / termination of lock() for every interleaving (liveness of the composed protocol), fairness, client deadlocks.")
 ASSUMPTIONS = ["Linux futex semantics (FUTEX_WAIT compares and sleeps atomically; wakes are keyed by flavour)",
                "Rust/C++11 memory model: an acquire RMW reading from a release RMW (or its release sequence) synchronises"]
